@@ -128,6 +128,17 @@ func c05Gen(rng *Rng) *c05Prog {
 			fmt.Fprintf(&b, "let sel%d a b c (flag:bool) =\n  if flag then\n    (a, b, c)\n  else\n    (a, b, c)\n\n", i)
 		}
 	}
+	if rng.Bool() {
+		// a function with four type parameters and a long body: many occurrences of each inference
+		// variable (anything that orders them must be stable whatever their number)
+		k := len(p.Literals)
+		fmt.Fprintf(&b, "let lg%d a b c d =\n", k)
+		for i := 0; i < 12; i++ {
+			sh := [][3]string{{"a", "b", "c"}, {"b", "c", "d"}, {"c", "d", "a"}, {"d", "a", "b"}}[i%4]
+			fmt.Fprintf(&b, "  let q%d = (%s, %s, %s)\n", i, sh[0], sh[1], sh[2])
+		}
+		b.WriteString("  let r0 = ((q0, q1, q2), (q3, q4, q5))\n  let r1 = ((q6, q7, q8), (q9, q10, q11))\n  (r0, r1, [a; a])\n\n")
+	}
 	p.Src = b.String()
 	return p
 }
